@@ -34,7 +34,7 @@ type variant struct {
 	failMode  string // "rpc" (call errors), "down", "stream" (stream breaks after one item), "nodataset" (replica's catalogue lacks the dataset)
 	cancel    bool   // a second thread cancels the caller's context
 	maxQuick  int
-	unknown   uint64 // entry node has no address for this node (dial error)
+	unknown   uint64    // entry node has no address for this node (dial error)
 	again     []float32 // the caller searches once more with this query before it looks at the first answer
 }
 
@@ -154,6 +154,18 @@ func build(v variant) *explore.Scenario {
 					x.Outcome = "blocked"
 					return &explore.Violation{Key: "search-never-returns", Desc: "Dataset.Search did not return: " + strings.Join(x.S.Blocked(), "; ")}
 				}
+				// everything stored anywhere, with its true score (for the per-item clauses shared with C01)
+				truth := func() map[uuid.UUID]index.SearchResultItem {
+					t := map[uuid.UUID]index.SearchResultItem{}
+					for p := 0; p < P; p++ {
+						host := c.Nodes[v.placement[p][0]-1]
+						r, _ := host.DS.VerifPartition(p).Index().Search(context.Background(), []float32{0}, 100)
+						for _, it := range r {
+							t[it.Id] = it
+						}
+					}
+					return t
+				}
 				// expected: top-k of the union of what each partition's own Search returns
 				var union index.SearchResult
 				for p := 0; p < P; p++ {
@@ -185,11 +197,11 @@ func build(v variant) *explore.Scenario {
 						hit = true
 					}
 					if hit {
-						return &explore.Violation{Key: classify(res, union, "fault"), Desc: fmt.Sprintf("a node could not be searched but Search returned success with %d items (expected an error); full answer would be %v", len(res), ids(union))}
+						return &explore.Violation{Key: classify(res, union, "fault") + itemClause(res, v.k, truth()), Desc: fmt.Sprintf("a node could not be searched but Search returned success with %d items (expected an error); full answer would be %v", len(res), ids(union))}
 					}
 				}
 				if !equal(res, union) {
-					return &explore.Violation{Key: classify(res, union, "ok"), Desc: fmt.Sprintf("Search returned %v with nil error, top-%d of the union is %v", ids(res), v.k, ids(union))}
+					return &explore.Violation{Key: classify(res, union, "ok") + itemClause(res, v.k, truth()), Desc: fmt.Sprintf("Search returned %v with nil error, top-%d of the union is %v", ids(res), v.k, ids(union))}
 				}
 				if !faulty && !v.cancel {
 					for p := 0; p < P; p++ {
@@ -220,6 +232,36 @@ func classify(got, want index.SearchResult, mode string) string {
 	return "wrong-result"
 }
 
+// itemClause names the per-item clause of a successful answer that is broken (the clauses C01 states for a search
+// "on a whole dataset"): "" when every returned item is stored, carries its true score and metadata, the list is
+// ascending, free of duplicates, at most k long and not empty while items are stored.
+func itemClause(res index.SearchResult, k uint, truth map[uuid.UUID]index.SearchResultItem) string {
+	if uint(len(res)) > k {
+		return ":more-than-k"
+	}
+	if len(res) == 0 && k >= 1 && len(truth) > 0 {
+		return ":empty"
+	}
+	seen := map[uuid.UUID]bool{}
+	for i, it := range res {
+		t, ok := truth[it.Id]
+		switch {
+		case !ok:
+			return ":not-stored"
+		case seen[it.Id]:
+			return ":duplicate-id"
+		case it.Score != t.Score:
+			return ":stale-score"
+		case fmt.Sprint(it.Metadata) != fmt.Sprint(t.Metadata):
+			return ":wrong-metadata"
+		case i > 0 && res[i-1].Score > it.Score:
+			return ":unsorted"
+		}
+		seen[it.Id] = true
+	}
+	return ""
+}
+
 func ids(r index.SearchResult) []string {
 	out := []string{}
 	for _, it := range r {
@@ -233,7 +275,7 @@ func equal(a, b index.SearchResult) bool {
 		return false
 	}
 	for i := range a {
-		if !uuid.Equal(a[i].Id, b[i].Id) || a[i].Score != b[i].Score {
+		if !uuid.Equal(a[i].Id, b[i].Id) || a[i].Score != b[i].Score || fmt.Sprint(a[i].Metadata) != fmt.Sprint(b[i].Metadata) {
 			return false
 		}
 	}
